@@ -24,6 +24,7 @@ Exempt(e, i) ==
   \/ "omit-commit" \in o /\ c = "commit"
   \/ "omit-file" \in o /\ c \in HeaderLines
   \/ "omit-hunk-header" \in o /\ c = "hh"
+  \/ "hunk-header-words" \in o /\ c = "hh"     \* asking for file / line-number in the hunk header adds them
 
 Judge(e) ==
   IF e.code # 0 THEN [why |-> "exit", at |-> e.code]
